@@ -13,6 +13,8 @@ import numpy as np
 from rv import core, fcsgen, layouts
 
 LEVEL = 'exploration'
+LEVEL_TEXT = 'Every cell of the layout lattice (version x kind x byte order x range kind x offset placement x end convention x padding) is visited with random widths/shapes/values; both observation points are compared cell by cell with a matrix encoded by an independent writer; a refusal family must raise; a load-scribble-reload history guards against shared buffers. Held on the executions observed; exhaustive only over the categorical dims.'
+TECHNIQUE = 'runtime contract on the loader vs an independently encoded matrix over a layout lattice + load history'
 RULE = ('every cell of the layout lattice version x kind x $BYTEORD x range-kind x offsets x '
         'end-convention x padding is visited (exhaustive over these dims) with random '
         'widths/values/shape; non-trivial = >=2 events and some value with a non-zero high byte '
